@@ -30,10 +30,12 @@ CLAIMS = {
                      'without _multi_update wrappers',
 }
 GOALS = {'quick': ['two declarations of one variable', 'variable given in the '
-                   'initial state', 'dotdot wiring', 'glob child from state'],
+                   'initial state', 'dotdot wiring', 'glob child from state',
+                   'glob over children that hold processes'],
          'thorough': ['two declarations of one variable',
                       'variable given in the initial state', 'dotdot wiring',
-                      'glob child from state']}
+                      'glob child from state',
+                      'glob over children that hold processes']}
 STUBS = ['stub processes whose schema, own initial_state() and wiring are '
          'produced by solver-decided choices']
 ASSUMPTIONS = ['which of two DIFFERENT declared defaults wins is not stated by '
@@ -276,6 +278,16 @@ def part_glob(ctx, cfg):
         second = True
     else:
         second = False
+    own = ctx.flag('children_have_processes')
+    if own:
+        # the children exist because the composite puts processes there (the
+        # glob process is listed before them); the initial state gives values
+        # for variables that only the glob declares
+        for c in children:
+            procs.setdefault('G', {})[c] = {'inner': P({'schema': {
+                'port': {'own': {'_default': 1}}}})}
+            topo.setdefault('G', {})[c] = {'inner': {'port': ()}}
+        ctx.goal('glob over children that hold processes')
     e = Engine(processes=nest(procs, parent),
                topology=nest(topo, parent),
                initial_state=copy.deepcopy(init), display_info=False,
@@ -284,6 +296,8 @@ def part_glob(ctx, cfg):
     cl = [sorted(val) == sorted(children)]
     for c in children:
         node = val.get(c, {})
+        if own:
+            cl.append(node.get('own') == 1)
         cl.append(EQ(node.get('v'), given.get(c, dv)))
         cl.append(EQ(node.get('u'), du))
         cl.append(get(node, ('deep', 'w'), None) == 7)
